@@ -7,13 +7,14 @@
 // allocates by n - the behaviour ASSUMED of nom 8 (it caps its initial capacity).  Whatever the body itself does with
 // the count is real: Kani's built-in checks flag a `capacity overflow` panic or an arithmetic overflow on it.
 // Loop-free apart from the <= 4 item reads: complete for the count, bounded (<= 3 coefficients) for the row.
-//@harness name=window_row_count_is_never_an_allocation_size tier=quick label=bounded(row<=3-coefficients,count=any-usize) props=C18,C04 timeout=900
+// Both of nom's float readers have stand-ins: `double` yields the coefficient as written, `float` its f32 rounding.
+//@harness name=window_row_is_read_as_written_and_count_is_no_allocation_size tier=quick label=bounded(row<=3-coefficients,count=any-usize) props=C18,C04 timeout=900
 use crate::model::voice::window::Window;
 use nom::error::ErrorKind;
 use nom::IResult;
 
 #[derive(Clone, Copy)]
-pub struct SIn { count: usize, avail: usize }      // announced count, coefficients really present (<= 3)
+pub struct SIn { count: usize, avail: usize }      // announced count, coefficients really present (<= 3); every coefficient reads 0.1
 #[derive(Clone, Copy)]
 pub struct SNum(usize);
 impl SNum { fn parse_to(&self) -> Option<usize> { Some(self.0) } }
@@ -22,42 +23,65 @@ impl SErr { fn from_error_kind(_n: SNum, _k: ErrorKind) -> Self { SErr } }
 type E = SErr;
 
 fn digit1(i: SIn) -> IResult<SIn, SNum, SErr> { Ok((i, SNum(i.count))) }
-pub struct Space1;
-pub struct Double;
-fn space1() -> Space1 { Space1 }
-#[allow(non_upper_case_globals)]
-const double: Double = Double;
-pub struct Item;
-fn preceded<A>(_a: A, _b: Double) -> Item { Item }
-impl Item {
+pub trait SP { type Out; fn parse(&mut self, i: SIn) -> IResult<SIn, Self::Out, SErr>; }
+/// `double` reads the coefficient as written (0.1); `float` reads it through f32, as nom's `float` would
+#[derive(Clone, Copy)] pub struct Dbl;
+#[derive(Clone, Copy)] pub struct Flt;
+#[allow(non_upper_case_globals)] const double: Dbl = Dbl;
+#[allow(non_upper_case_globals, dead_code)] const float: Flt = Flt;
+impl SP for Dbl {
+    type Out = f64;
     fn parse(&mut self, i: SIn) -> IResult<SIn, f64, SErr> {
-        if i.avail == 0 { Err(nom::Err::Error(SErr)) } else { Ok((SIn { count: i.count, avail: i.avail - 1 }, 0.5)) }
+        if i.avail == 0 { Err(nom::Err::Error(SErr)) } else { Ok((SIn { count: i.count, avail: i.avail - 1 }, 0.1)) }
     }
 }
-pub struct Many { n: usize }
-fn many_m_n(m: usize, n: usize, _p: Item) -> Many { assert!(m == n); Many { n } }
-pub struct Mapped { inner: Many }
-fn map(inner: Many, _f: fn(Vec<f64>) -> Window) -> Mapped { Mapped { inner } }
-impl Mapped {
-    fn parse(&mut self, i: SIn) -> IResult<SIn, Window, SErr> {
-        let n = self.inner.n;
-        if n > i.avail { return Err(nom::Err::Error(SErr)); }
-        let v = if n == 0 { vec![] } else if n == 1 { vec![0.5] } else if n == 2 { vec![0.5, 0.5] } else { vec![0.5, 0.5, 0.5] };
-        Ok((SIn { count: i.count, avail: i.avail - n }, Window::new(v)))
+impl SP for Flt {
+    type Out = f32;
+    fn parse(&mut self, i: SIn) -> IResult<SIn, f32, SErr> {
+        if i.avail == 0 { Err(nom::Err::Error(SErr)) } else { Ok((SIn { count: i.count, avail: i.avail - 1 }, 0.1f64 as f32)) }
     }
 }
+pub struct Space1;
+fn space1() -> Space1 { Space1 }
+fn preceded<A, P: SP>(_a: A, p: P) -> P { p }
+pub struct Map<P, F> { p: P, f: F }
+fn map<P: SP, O, F: FnMut(P::Out) -> O>(p: P, f: F) -> Map<P, F> { Map { p, f } }
+impl<P: SP, O, F: FnMut(P::Out) -> O> SP for Map<P, F> {
+    type Out = O;
+    fn parse(&mut self, i: SIn) -> IResult<SIn, O, SErr> { let (r, v) = self.p.parse(i)?; Ok((r, (self.f)(v))) }
+}
+pub struct Many<P> { n: usize, p: P }
+fn many_m_n<P: SP>(m: usize, n: usize, p: P) -> Many<P> { assert!(m == n); Many { n, p } }
+impl<P: SP> SP for Many<P> {
+    type Out = Vec<P::Out>;
+    fn parse(&mut self, mut i: SIn) -> IResult<SIn, Vec<P::Out>, SErr> {
+        // fails when fewer than n items are available; never allocates by n (assumed of nom 8)
+        if self.n > i.avail { return Err(nom::Err::Error(SErr)); }
+        let mut v = Vec::new();
+        let mut k = 0;
+        while k < self.n { let (r, x) = self.p.parse(i)?; v.push(x); i = r; k += 1; }
+        Ok((i, v))
+    }
+}
+
 fn parse_window_row(i: SIn) -> IResult<SIn, Window, SErr>
 /*@BODY src/model/parser/window.rs :: impl WindowParser :: fn parse_window_row@*/
 
 #[kani::proof]
 #[kani::unwind(6)]
-fn window_row_count_is_never_an_allocation_size() {
+fn window_row_is_read_as_written_and_count_is_no_allocation_size() {
     let count: usize = kani::any();
     let avail: usize = kani::any();
     kani::assume(avail <= 3);
     let r = parse_window_row(SIn { count, avail });
     match &r {
-        Ok((rest, w)) => assert!(count <= avail && w.width() == count && rest.avail == avail - count),
+        Ok((rest, w)) => {
+            assert!(count <= avail && w.width() == count && rest.avail == avail - count);
+            // C04: the coefficients are the numbers written in the file (here 0.1), not their f32 roundings
+            let want = if count == 0 { Window::new(vec![]) } else if count == 1 { Window::new(vec![0.1]) }
+                       else if count == 2 { Window::new(vec![0.1, 0.1]) } else { Window::new(vec![0.1, 0.1, 0.1]) };
+            assert!(*w == want);
+        }
         Err(_) => assert!(count > avail),
     }
     kani::cover!(count == 3 && avail == 3);
